@@ -6,6 +6,7 @@ import math
 import uuid as uuidlib
 from fractions import Fraction as Fr
 
+import numpy as np
 from hypothesis import strategies as st
 
 from vf.core import Sub
@@ -173,6 +174,16 @@ def check(spec, ctx):
                 ctx.fail(f"{how}: a clip lengthened from [{start},{end}] to [{start},{longer_end}] yields {len(got2)} segments, its own lattice has {len(ref2)}", spec, got2[-3:], ref2[-3:], kind="stale_clip")
         if [(x.start_time, x.end_time) for x in segment_clip(clip, **kw)] != got:
             ctx.fail("segmenting the original clip again gives a different answer after deriving copies", spec, None, None, kind="not_repeatable")
+    # the same call written positionally (documented order: clip, duration, hop, include_incomplete) and with numpy scalars
+    alts = {"numpy scalars": lambda: segment_clip(clip, **{k: (np.float64(v) if isinstance(v, float) else v) for k, v in kw.items()})}
+    if hop is not None:
+        alts["positional"] = lambda: segment_clip(clip, dur, hop, inc)
+    else:
+        alts["positional duration"] = lambda: segment_clip(clip, dur, include_incomplete=inc)
+    for how, call in alts.items():
+        other = [(x.start_time, x.end_time, x.uuid) for x in call()]
+        if other != [(x.start_time, x.end_time, x.uuid) for x in segs]:
+            ctx.fail(f"segment_clip written with {how} gives other segments than the keyword call", spec, other[:3], got[:3], kind="call_style")
     # include_incomplete defaults to False
     if not inc:
         kw_d = {k: v for k, v in kw.items() if k != "include_incomplete"}
